@@ -21,6 +21,7 @@ GEN = {
     "GenEndpointSim": {"tla": "GenEndpoint.tla", "cfg": "GenEndpoint_sim.cfg", "simulate_quick": "num=12", "depth": 50,
                        "simulate_thorough": "num=150"},
     "GenEndpoint3": {"tla": "GenEndpoint.tla", "cfg": "GenEndpoint3.cfg"},
+    "GenEndpoint3Full": {"tla": "GenEndpoint.tla", "cfg": "GenEndpoint3_full.cfg"},
     "GenLink": {"tla": "GenLink.tla", "cfg": "GenLink.cfg"},
     "GenLinkTwo": {"tla": "GenLink.tla", "cfg": "GenLink_two.cfg", "simulate_thorough": "num=4000", "simulate_quick": "num=300", "depth": 400, "timeout": 3000},
     "GenAlphabet": {"tla": "GenEndpoint.tla", "cfg": "GenAlphabet.cfg"},
@@ -69,19 +70,19 @@ P("C10", "exploration",
   models=["MC_Decode", "MC_Endpoint"], gen_quick=["GenDecode"], gen_thorough=["GenDecodeFull"], families=["bus", "robust", "mutate", "corrupt"])
 P("C11", "model_checking",
   "non-trivial = a process_packet call where both decode_packet and process_packet returned; distinct = distinct (context, bytes, buffer size)",
-  models=["MC_Endpoint"], gen_quick=["GenEndpoint", "GenEndpoint3", "GenEndpointSim", "GenLink"], gen_thorough=["GenEndpoint", "GenEndpoint3", "GenEndpointSim", "GenLinkTwo"], families=["bus", "forge", "robust", "corrupt"])
+  models=["MC_Endpoint"], gen_quick=["GenEndpoint", "GenEndpoint3", "GenEndpointSim", "GenLink"], gen_thorough=["GenEndpoint", "GenEndpoint3Full", "GenEndpointSim", "GenLinkTwo"], families=["bus", "forge", "robust", "corrupt"])
 P("C12", "model_checking",
   "non-trivial = process_packet on an accepted control request in C12's domain (answerable command, source address = source EID < 0x80, D = 0); distinct = distinct (context, request bytes)",
-  models=["MC_Endpoint", "MC_Link"], gen_quick=["GenEndpoint", "GenEndpoint3", "GenEndpointSim", "GenLink"], gen_thorough=["GenEndpoint", "GenEndpoint3", "GenEndpointSim", "GenLinkTwo"], families=["bus", "forge", "vendor_enum", "identity", "history"])
+  models=["MC_Endpoint", "MC_Link"], gen_quick=["GenEndpoint", "GenEndpoint3", "GenEndpointSim", "GenLink"], gen_thorough=["GenEndpoint", "GenEndpoint3Full", "GenEndpointSim", "GenLinkTwo"], families=["bus", "forge", "vendor_enum", "identity", "history"])
 P("C13", "model_checking",
   "non-trivial = a processed Set/Get Endpoint ID packet (accepted, rejected or corrupted) or a direct accessor call; every event with a context is an evaluation of 'nothing else changes it'; distinct = distinct (context, input)",
-  models=["MC_Endpoint", "MC_Link"], gen_quick=["GenAlphabet", "GenEndpoint", "GenEndpoint3", "GenEndpointSim", "GenLink"], gen_thorough=["GenAlphabet", "GenEndpoint", "GenEndpoint3", "GenEndpointSim", "GenLinkTwo"], families=["bus", "tour", "history", "forge", "corrupt"])
+  models=["MC_Endpoint", "MC_Link"], gen_quick=["GenAlphabet", "GenEndpoint", "GenEndpoint3", "GenEndpointSim", "GenLink"], gen_thorough=["GenAlphabet", "GenEndpoint", "GenEndpoint3Full", "GenEndpointSim", "GenLinkTwo"], families=["bus", "tour", "history", "forge", "corrupt"])
 P("C14", "model_checking",
   "non-trivial = process_packet on an accepted Get Vendor Defined Message Support request with selector < n; distinct = distinct (configuration, request)",
-  models=["MC_Endpoint", "MC_Link"], gen_quick=["GenEndpoint", "GenEndpoint3", "GenEndpointSim", "GenLink"], gen_thorough=["GenEndpoint", "GenEndpoint3", "GenEndpointSim", "GenLinkTwo"], families=["bus", "vendor_enum", "forge"])
+  models=["MC_Endpoint", "MC_Link"], gen_quick=["GenEndpoint", "GenEndpoint3", "GenEndpointSim", "GenLink"], gen_thorough=["GenEndpoint", "GenEndpoint3Full", "GenEndpointSim", "GenLinkTwo"], families=["bus", "vendor_enum", "forge"])
 P("C15", "model_checking",
   "non-trivial = process_packet on an accepted Get UUID / Get Version / Get Message Type Support request; distinct = distinct (configuration, UUID history, request)",
-  models=["MC_Endpoint", "MC_Link"], gen_quick=["GenEndpoint", "GenEndpoint3", "GenEndpointSim", "GenLink"], gen_thorough=["GenEndpoint", "GenEndpoint3", "GenEndpointSim", "GenLinkTwo"], families=["bus", "identity", "forge"])
+  models=["MC_Endpoint", "MC_Link"], gen_quick=["GenEndpoint", "GenEndpoint3", "GenEndpointSim", "GenLink"], gen_thorough=["GenEndpoint", "GenEndpoint3Full", "GenEndpointSim", "GenLinkTwo"], families=["bus", "identity", "forge"])
 P("C16", "model_checking",
   "every encoder call is an evaluation (refusal table, exact write extent via poisoned buffers, independence from capacity/poison via repeated calls); distinct = distinct (arguments, capacity, poison)",
   models=["MC_Codec"], families=["requests", "responses", "vendor", "lengths"])
